@@ -50,9 +50,11 @@ from props.moncommon import (Mon, DEVS, WIDTHS, install_timer, core_of, tohex, u
 
 ID = 'C20'
 LEAN_MODULES = ['Py65.Props.C20', 'Py65.Proofs.MonPreGenEq', 'Py65.Proofs.MonCmdGenEq', 'Py65.Props.C20g',
-                'Py65.Proofs.MonCompose', 'Py65.Props.C20h', 'Py65.Proofs.MonAsmGenEq', 'Py65.Props.C20a']
+                'Py65.Proofs.MonCompose', 'Py65.Props.C20h', 'Py65.Proofs.MonAsmGenEq', 'Py65.Props.C20a',
+                'Py65.Proofs.MonCompose2', 'Py65.Props.C20i']
 NAMESPACES = ['Py65.Props.C20', 'Py65.Proofs.MonPreGenEq', 'Py65.Proofs.MonCmdGenEq', 'Py65.Props.C20g',
-              'Py65.Proofs.MonCompose', 'Py65.Props.C20h', 'Py65.Proofs.MonAsmGenEq', 'Py65.Props.C20a']
+              'Py65.Proofs.MonCompose', 'Py65.Props.C20h', 'Py65.Proofs.MonAsmGenEq', 'Py65.Props.C20a',
+              'Py65.Proofs.MonCompose2', 'Py65.Props.C20i']
 # library helpers (CPython behaviour modelled in lean/Py65/Model/*Rt*.lean ...) that the generated code of these
 # modules calls, derived by scanning the Lean sources (harness/rtscan.py); validated against CPython on every run
 import rtcheck  # noqa: E402
@@ -123,6 +125,20 @@ EXPECTED_THEOREMS = [
     'Py65.Props.C20a.interactive_assemble_wraps', 'Py65.Props.C20a.interactive_assemble_session',
     'Py65.Props.C20a.asmG_refusals', 'Py65.Props.C20a.interactive_assemble_start',
     'Py65.Props.C20a.display_commands_pure', 'Py65.Props.C20a.cd_changes_cwd',
+    # FULL composition (builder asmhon): UntModels / AsmHonest of C20h discharged for the generated do_assemble (+
+    # _interactive_assemble), do_help, do_version, do_cd, do_pwd through the adapter Model/MonCompose2Rt.lean
+    'Py65.Proofs.MonCompose2.doAssemble_kept', 'Py65.Proofs.MonCompose2.asm_kept',
+    'Py65.Proofs.MonCompose2.asm_rejected_end', 'Py65.Proofs.MonCompose2.asm_honest',
+    'Py65.Proofs.MonCompose2.models_assemble', 'Py65.Proofs.MonCompose2.models_help',
+    'Py65.Proofs.MonCompose2.models_version', 'Py65.Proofs.MonCompose2.models_cd',
+    'Py65.Proofs.MonCompose2.models_pwd', 'Py65.Proofs.MonCompose2.unt_models',
+    'Py65.Proofs.MonCompose2.models_at2', 'Py65.Proofs.MonCompose2.callOK2_of_rejected',
+    'Py65.Proofs.MonCompose2.onecmd_sim_composed2', 'Py65.Proofs.MonCompose2.onecmd_rejected_composed2',
+    'Py65.Props.C20i.unt_models_generated', 'Py65.Props.C20i.asm_honest_generated',
+    'Py65.Props.C20i.rejected_unchanged_fully_composed', 'Py65.Props.C20i.rejected_unchanged_composed_instance',
+    'Py65.Props.C20i.onecmd_agrees_fully_composed', 'Py65.Props.C20i.assemble_refusals_fully_composed',
+    'Py65.Props.C20i.assemble_keeps_session', 'Py65.Props.C20i.disassemble_inside_assemble_kept',
+    'Py65.Props.C20i.inputOK_exQ2',
 ]
 RULE = ('a line counts as non-trivial when the real monitor dispatched it to a command or refused it '
         '(i.e. everything except blank lines with nothing to repeat); distinct = distinct '
@@ -219,6 +235,18 @@ TRUSTED = [
     'a NEW AddressParser no labels and radix 16: constructor behaviour, modelled); every unit command starts with an '
     'empty output list and what it printed is appended; files written are dropped; exception classes outside '
     'MonGenRt.Exc become Exc.Other',
+    'FULL COMPOSITION (Py65.Proofs.MonCompose2, Py65.Props.C20i): the parameters P.unt / P.asm of C20h are instantiated '
+    'with the GENERATED do_assemble (+ _interactive_assemble; the GENERATED assembler of the session device plugged in '
+    'as in C20a; self.do_disassemble = the generated command of unit show), do_help, do_version, do_cd, do_pwd through '
+    'the adapter lean/Py65/Model/MonCompose2Rt.lean (AsmSt built from the session core: memory object G.omOf c, '
+    'registers, address parser, breakpoints, width; ALL of them read back; stdin = the input oracle Q.I.lines c arg, '
+    'cwd = Q.I.cwd c, both dropped afterwards); UntModels (from GlueOK, OutOnly cmdhelp, InputOK) and AsmHonest (from '
+    'GlueOK) are PROVED from C20a; rejected_unchanged_fully_composed needs neither InputOK nor any hypothesis about a '
+    'do_* method.  Verdict of assemble (asmVerdict): refused iff the address parser raises on the start address or '
+    '(one-line form) the generated assembler raises on the statement.  An interactive session whose typed lines run '
+    'out before a blank line does not return (.nofuel all the way up; not a refused line).  STILL ASSUMED: '
+    'cmd.Cmd.do_help (standard library, parameter cmdhelp) only prints (C20a.OutOnly); the texts of two KeyErrors '
+    '(Q.kt, Q.ktDis) are uninterpreted; the disassembler reads the memory object by PEEK (read subscribers not triggered)',
 ]
 ASSUMPTIONS = [
     'input lines are over ASCII',
@@ -252,6 +280,9 @@ ASSUMPTIONS = [
     'fuel: P.fuelFill above the address-space size of the session device (FillFuel) and above the length of every '
     'loadable file (LoadFuel); a run / listing that exhausts P.fuelRun / P.fuelDis is not judged (CallOK); the label '
     'table is well formed (Parser.WF: every value went through _constrain)',
+    'full composition C20i: the lines typed during an interactive assemble are an input oracle of (core, argument); a '
+    'session without a blank line among them (or longer than Q.fuelAsm prompts) does not return and is not judged; the '
+    'working directory is not session state (cd then pwd is not related by the composed statements)',
 ]
 
 def pre_build(ctx):
